@@ -3,7 +3,7 @@ from ural.urls_from_html import urls_from_html
 from ural.should_follow_href import should_follow_href
 from ural.is_url import is_url
 from ural.utils import urljoin
-from ural.patterns import PROTOCOL_RE
+from ural.patterns import HTTP_PROTOCOL_RE
 
 
 def links_from_html(
@@ -30,7 +30,8 @@ def links_from_html(
             continue
 
         # urllib.parse.urljoin lowercases protocol...
-        if not PROTOCOL_RE.match(url):
+        # NOTE: a scheme-relative href ("//host/path") must be joined too
+        if not HTTP_PROTOCOL_RE.match(url):
             url = urljoin(base_url, url)
 
         if not is_url(
